@@ -394,6 +394,17 @@ func (fr *frame) findEscapes(fn *ssa.Function) {
 				}
 			case *ssa.DebugRef:
 				continue
+			case *ssa.FieldAddr:
+				// reading a field of the local struct does not let it escape
+				onlyLoads := true
+				for _, r2 := range *r.Referrers() {
+					if u, ok := r2.(*ssa.UnOp); !ok || u.Op != token.MUL {
+						onlyLoads = false
+					}
+				}
+				if onlyLoads {
+					continue
+				}
 			}
 			fr.escaped[a] = true
 		}
@@ -501,6 +512,11 @@ func (fr *frame) eval(ins ssa.Instruction) bool {
 				}
 			case *ssa.FieldAddr:
 				base := get(a.X)
+				if al, ok := a.X.(*ssa.Alloc); ok && !fr.escaped[al] {
+					if c, ok := fr.cell[al]; ok {
+						base = c
+					}
+				}
 				if base.K == ATop && base.F != nil {
 					if st, ok := Deref(a.X.Type()).Underlying().(*types.Struct); ok {
 						if c, ok := base.F[st.Field(a.Field).Name()]; ok {
